@@ -656,3 +656,40 @@ func Subst2(e Expr, name string, with Expr) Expr {
 	}
 	return e
 }
+
+// ExpandPow rewrites pow(x, k) with a small whole k >= 1 into the product x*x*...*x everywhere
+// in e (also inside the arguments of other operators), so that x*x and pow(x, 2) are one term.
+func ExpandPow(e Expr) Expr {
+	switch x := e.(type) {
+	case Bin:
+		return Bin{x.Op, ExpandPow(x.L), ExpandPow(x.R)}
+	case Neg:
+		return Neg{ExpandPow(x.X)}
+	case Call:
+		args := make([]Expr, len(x.Args))
+		for i, a := range x.Args {
+			args[i] = ExpandPow(a)
+		}
+		if x.Fn == "pow" && len(args) == 2 {
+			if k, ok := intConst(args[1]); ok && k >= 1 && k <= 6 {
+				out := args[0]
+				for i := int64(1); i < k; i++ {
+					out = Bin{"*", out, args[0]}
+				}
+				return out
+			}
+		}
+		return Call{Fn: x.Fn, Args: args}
+	case Cmp:
+		return Cmp{x.Op, ExpandPow(x.L), ExpandPow(x.R)}
+	case Logic:
+		args := make([]Expr, len(x.Args))
+		for i, a := range x.Args {
+			args[i] = ExpandPow(a)
+		}
+		return Logic{Op: x.Op, Args: args}
+	case Ite:
+		return Ite{ExpandPow(x.Cond), ExpandPow(x.A), ExpandPow(x.B)}
+	}
+	return e
+}
